@@ -80,7 +80,8 @@ def check(run, prog, tier):
     run.need(heads, "main loop after setjmp in backend")
     # outermost = the head that dominates all other heads
     outer = [h for h in heads if all(bi.dominates(h, o) for o in heads)]
-    head = outer[0] if outer else heads[0]
+    # several loops one after the other (a spliced helper may bring its own): the main loop is the largest one
+    head = outer[0] if outer else max(heads, key=lambda h: sum(1 for x in bi.reachable() if bi.dominates(h, x) and h in cfgq.reach_set(bi, [x])))
     region = cfgq.reach_set(bi, sjb.live_succ(), avoid_blocks=[head])
     bad = []
     nreg = 0
